@@ -150,19 +150,95 @@ def check_units(prog, rep):
     gd = m.funcs.get('_get_distance')
     if gd is None:
         raise AnalysisIncomplete('_get_distance not found')
-    raises = {}
-    for i in [n for n in gd.own_nodes() if isinstance(n, ast.If) and any(isinstance(x, ast.Raise) for x in n.body)]:
-        raises[norm(i.test).replace(' ', '')] = i
-    need = {'distance<=0': 'non-positive distances are rejected', 'not_is_numeric(number)': 'non-numeric distances are rejected',
-            'unitnotinUNITS': 'unknown units are rejected', 'len(splits)notin[1,2]': 'malformed strings are rejected'}
-    for t, why in need.items():
-        rep.add('U2', gd, entry, 'raise if %s' % t, raises[t].lineno if t in raises else gd.node.lineno, t in raises, why)
-    ok = any(isinstance(s, ast.Assign) and norm(s).replace(' ', '') == 'unit=unit.lower()' for s in gd.own_nodes())
-    rep.add('U2', gd, entry, 'unit lower-cased', gd.node.lineno, ok, 'units are case-insensitive')
-    rets = [n for n in gd.own_nodes() if isinstance(n, ast.Return)]
-    ok = len(rets) == 1 and any(isinstance(s, ast.Assign) and norm(s).replace(' ', '') == 'meters=_to_meters(distance,unit)' for s in gd.own_nodes()) \
-        and norm(rets[0].value) == 'meters'
-    rep.add('U2', gd, entry, 'returns _to_meters(distance, unit)', gd.node.lineno, ok, 'the parsed distance is converted to metres')
+    # read with small helpers inlined and locals resolved: each rejecting test is classified by what it looks at and
+    # evaluated on the finite set of cases that matter (token count 0..4; distance -1, 0, 1/2)
+    import copy
+    from ..astutil import inline, straightline_env
+    from ..inline import inline_view
+    from ..kutil import CannotEvaluate, Spec, eval_cond_full
+    from ..sym import Rat, Sym
+    gdv = inline_view(prog, gd)
+    body = gdv.node.body
+
+    class Repl(ast.NodeTransformer):
+        def __init__(self, pred, name):
+            self.pred, self.name, self.hit = pred, name, 0
+
+        def visit_Call(self, n):
+            if self.pred(n):
+                self.hit += 1
+                return ast.copy_location(ast.Name(id=self.name, ctx=ast.Load()), n)
+            self.generic_visit(n)
+            return n
+    found = {'count': None, 'numeric': None, 'positive': None, 'unit': None}
+    why = {}
+    for i in [n for n in body if isinstance(n, ast.If) and any(isinstance(x, ast.Raise) for x in n.body)]:
+        env = straightline_env(body, upto=i)
+        t = inline(i.test, env)
+        txt = norm(t).replace(' ', '')
+        try:
+            if 'UNITS' in txt and isinstance(t, ast.Compare) and isinstance(t.ops[0], ast.NotIn) and norm(t.comparators[0]) == 'UNITS':
+                lowered = any(isinstance(x, ast.Call) and isinstance(x.func, ast.Attribute) and x.func.attr in ('lower', 'casefold')
+                              for x in ast.walk(t.left))
+                found['unit'] = (True, i)
+                found['lower'] = (lowered, i)
+            elif '_is_numeric(' in txt:
+                ok = isinstance(t, ast.UnaryOp) and isinstance(t.op, ast.Not) and isinstance(t.operand, ast.Call) and \
+                    short(t.operand) == '_is_numeric' and norm(t.operand.args[0]).replace(' ', '').endswith('[0]') and \
+                    're.split' in norm(t.operand.args[0])
+                found['numeric'] = (ok, i)
+            elif 'float(' in txt:
+                r = Repl(lambda n: short(n) == 'float', '__d')
+                t2 = ast.fix_missing_locations(r.visit(copy.deepcopy(t)))
+                sp = Spec(prog, {'__d': Rat.sym('d')}, m)
+                c = sp.it.cond_of(sp.it.ev(t2), t2)
+                vals = [eval_cond_full(c, {Sym('d'): Fraction(k)}) for k in (Fraction(-1), Fraction(0), Fraction(1, 2))]
+                first = any(isinstance(x, ast.Call) and short(x) == 'float' and norm(x.args[0]).replace(' ', '').endswith('[0]')
+                            for x in ast.walk(t))
+                found['positive'] = (vals == [True, True, False] and first, i)
+                why['positive'] = 'rejects distances %s' % [str(k) for k, v in zip(('-1', '0', '1/2'), vals) if v]
+            elif 'len(' in txt and 're.split' in txt:
+                r = Repl(lambda n: short(n) == 'len', '__n')
+                t2 = ast.fix_missing_locations(r.visit(copy.deepcopy(t)))
+                if any(isinstance(x, ast.Name) and x.id != '__n' for x in ast.walk(t2)):
+                    continue        # not a test of the token count alone
+                sp = Spec(prog, {'__n': Rat.sym('n')}, m)
+                c = sp.it.cond_of(sp.it.ev(t2), t2)
+                vals = [eval_cond_full(c, {Sym('n'): Fraction(k)}) for k in range(5)]
+                found['count'] = (vals == [True, False, False, True, True], i)
+                why['count'] = 'rejects token counts %s' % [k for k, v in enumerate(vals) if v]
+        except (AnalysisIncomplete, CannotEvaluate) as e:
+            why['error'] = str(e)
+    need = {'count': 'malformed strings (not exactly a number with an optional unit) are rejected',
+            'numeric': 'non-numeric distances are rejected', 'positive': 'non-positive distances are rejected',
+            'unit': 'unknown units are rejected'}
+    for kind, reason in need.items():
+        f_ = found.get(kind)
+        rep.add('U2', gd, entry, 'rejecting test: %s' % kind, f_[1].lineno if f_ else gd.node.lineno, bool(f_ and f_[0]),
+                reason + ('; ' + why[kind] if kind in why else '') + ('; ' + why['error'] if 'error' in why else ''))
+    rets = [n for n in body if isinstance(n, ast.Return)]
+    okr = False
+    lowered = bool(found.get('lower') and found['lower'][0])
+    if len(rets) == 1 and rets[0].value is not None:
+        rv = inline(rets[0].value, straightline_env(body, upto=rets[0]))
+        tm_ok = isinstance(rv, ast.Call) and short(rv) == '_to_meters' and len(rv.args) == 2
+        if not tm_ok and isinstance(rv, ast.BinOp) and isinstance(rv.op, ast.Mult) and 'UNITS[' in norm(rv):
+            # _to_meters inlined: value * UNITS[unit]
+            sides = [rv.left, rv.right]
+            un = [x for x in sides if isinstance(x, ast.Subscript) and norm(x.value) == 'UNITS']
+            va = [x for x in sides if x not in un]
+            if len(un) == 1 and len(va) == 1:
+                tm_ok = True
+                rv = ast.Call(func=ast.Name(id='_to_meters', ctx=ast.Load()), args=[va[0], un[0].slice], keywords=[])
+        if tm_ok:
+            d_ok = any(isinstance(x, ast.Call) and short(x) == 'float' for x in ast.walk(rv.args[0])) and \
+                norm(rv.args[0]).replace(' ', '').count('[0]') >= 1
+            u_low = any(isinstance(x, ast.Call) and isinstance(x.func, ast.Attribute) and x.func.attr in ('lower', 'casefold')
+                        for x in ast.walk(rv.args[1]))
+            lowered = lowered and u_low
+            okr = d_ok
+    rep.add('U2', gd, entry, 'unit lower-cased before it is looked up and used', gd.node.lineno, lowered, 'units are case-insensitive')
+    rep.add('U2', gd, entry, 'returns _to_meters(distance, unit)', gd.node.lineno, okr, 'the parsed distance is converted to metres')
     cc = m.funcs.get('calc_cellsize')
     if cc is not None:
         t = [norm(s).replace(' ', '') for s in cc.own_nodes() if isinstance(s, (ast.Assign, ast.Return))]
@@ -179,86 +255,138 @@ def check_kernels(prog, rep):
     if f is None:
         raise AnalysisIncomplete('_ellipse_kernel not found')
     hw, hh = f.params[:2]
+    from ..astutil import inline, straightline_env
+    from ..kai import Arr, TupleV
+    W, H = Rat.sym('W'), Rat.sym('H')
     grids = {}
-    for s in f.node.body:
-        if isinstance(s, ast.Assign) and isinstance(s.targets[0], ast.Name):
-            v = s.value
-            col = False
-            if isinstance(v, ast.Subscript) and norm(v.slice).replace(' ', '') == '(slice(None,None,None),None)':
-                col = True
-                v = v.value
-            if isinstance(v, ast.Subscript) and norm(v.slice).replace(' ', '') in (':,None', '(:,None)'):
-                col = True
-                v = v.value
-            if isinstance(v, ast.Call) and short(v) == 'linspace' and len(v.args) == 3:
-                grids[s.targets[0].id] = ([norm(a).replace(' ', '') for a in v.args], col, s)
-    sub = None
-    for s in f.node.body:
-        if isinstance(s, ast.Assign) and isinstance(s.value, ast.Subscript) and isinstance(s.value.value, ast.Call) and \
-                short(s.value.value) == 'linspace':
-            v = s.value.value
-            txt = norm(s.value.slice).replace(' ', '')
-            grids[s.targets[0].id] = ([norm(a).replace(' ', '') for a in v.args], txt in (':,None', '(:,None)', '(slice(None,None,None),None)'), s)
-    # x: row vector over columns with half_w; y: column vector over rows with half_h
+    for s_ in f.node.body:
+        if not (isinstance(s_, ast.Assign) and isinstance(s_.targets[0], ast.Name)):
+            continue
+        v = s_.value
+        col = False
+        # a column vector: [:, None] / [:, np.newaxis] / .reshape(-1, 1)
+        if isinstance(v, ast.Subscript) and norm(v.slice).replace(' ', '') in (':,None', '(:,None)', '(slice(None,None,None),None)',
+                                                                              ':,np.newaxis', '(:,np.newaxis)'):
+            col, v = True, v.value
+        elif isinstance(v, ast.Call) and short(v) == 'reshape' and isinstance(v.func, ast.Attribute) and \
+                norm(ast.Tuple(elts=list(v.args), ctx=ast.Load()) if len(v.args) == 2 else v.args[0]).replace(' ', '') in ('(-1,1)',):
+            col, v = True, v.func.value
+        if isinstance(v, ast.Call) and short(v) == 'linspace' and len(v.args) == 3:
+            try:
+                sp0 = Spec(prog, {hw: W, hh: H}, m)
+                grids[s_.targets[0].id] = ([sp0.it.as_scalar(sp0.it.ev(a_)) for a_ in v.args], col, s_)
+            except AnalysisIncomplete:
+                grids[s_.targets[0].id] = (None, col, s_)
     xs = [(n, g) for n, g in grids.items() if not g[1]]
     ys = [(n, g) for n, g in grids.items() if g[1]]
-    okx = len(xs) == 1 and xs[0][1][0] == ['-' + hw, hw, '2*%s+1' % hw]
-    oky = len(ys) == 1 and ys[0][1][0] == ['-' + hh, hh, '2*%s+1' % hh]
-    rep.add('E1', f, entry, 'grids %s' % {n: (g[0], 'column vector' if g[1] else 'row vector') for n, g in grids.items()},
+    one, two = Rat.const(1), Rat.const(2)
+    okx = len(xs) == 1 and xs[0][1][0] == [-W, W, two * W + one]
+    oky = len(ys) == 1 and ys[0][1][0] == [-H, H, two * H + one]
+    rep.add('E1', f, entry, 'grids %s' % {n: ([show(a_, 20) for a_ in (g[0] or [])], 'column vector' if g[1] else 'row vector') for n, g in grids.items()},
             f.node.lineno, okx and oky,
             'x must run over the columns as linspace(-half_w, half_w, 2*half_w+1) and y over the rows (column vector) as '
             'linspace(-half_h, half_h, 2*half_h+1): symmetric odd grids, width with the column axis')
     if not (okx and oky):
         return
     xn, yn = xs[0][0], ys[0][0]
-    comp = None
-    for s in f.node.body:
-        if isinstance(s, ast.Assign) and isinstance(s.value, ast.Compare):
-            comp = s
-    if comp is None:
-        rep.add('E1', f, entry, 'ellipse inequality', f.node.lineno, None, 'comparison not found')
+    rets = [n for n in f.own_nodes() if isinstance(n, ast.Return)]
+    if len(rets) != 1 or rets[0].value is None:
+        rep.add('E1', f, entry, 'ellipse inequality', f.node.lineno, None, 'single return not found')
         return
-    env = {xn: Rat.sym('X'), yn: Rat.sym('Y'), hw: Rat.sym('W'), hh: Rat.sym('H')}
+    envl = straightline_env([s_ for s_ in f.node.body if not (isinstance(s_, ast.Assign) and norm(s_.targets[0]) in (xn, yn))], upto=rets[0])
+    rv = inline(rets[0].value, envl)
+    cast_ok = isinstance(rv, ast.Call) and short(rv) == 'astype' and isinstance(rv.func, ast.Attribute) and len(rv.args) == 1 and \
+        norm(rv.args[0]) in ('float', 'np.float64', 'numpy.float64', "'f8'", "'float64'", 'np.float32', 'np.double')
+    comp = rv.func.value if cast_ok else rv
+    if not isinstance(comp, ast.Compare):
+        rep.add('E1', f, entry, 'ellipse inequality', f.node.lineno, None, 'comparison not found in %s' % norm(rv)[:80])
+        return
+    env = {xn: Rat.sym('X'), yn: Rat.sym('Y'), hw: W, hh: H}
     sp = Spec(prog, env, m)
-    c = sp.it.cond_of(sp.it.ev(comp.value), comp.value)
-    X, Y, W, H = Rat.sym('X'), Rat.sym('Y'), Rat.sym('W'), Rat.sym('H')
+    c = sp.it.cond_of(sp.it.ev(comp), comp)
+    X, Y = Rat.sym('X'), Rat.sym('Y')
     want = cmp_cond('<=', (X * H) ** 2 + (Y * W) ** 2, (W * H) ** 2)
     ok = cond_key(c) == cond_key(want)
-    rep.add('E1', f, entry, norm(comp), comp.lineno, ok,
+    rep.add('E1', f, entry, norm(comp), rets[0].lineno, ok,
             'the mask must be (x*half_h)^2 + (y*half_w)^2 <= (half_w*half_h)^2, i.e. (x/half_w)^2 + (y/half_h)^2 <= 1 '
             'without division; got %s' % cond_repr(c)[:160])
     if c[0] == 'cmp':
         flipx = subst(c[3], lambda a: -Rat.atom(a) if a == Sym('X') else None) == c[3]
         flipy = subst(c[3], lambda a: -Rat.atom(a) if a == Sym('Y') else None) == c[3]
-        rep.add('E2', f, entry, 'parity of the mask condition in x and y', comp.lineno, flipx and flipy,
+        rep.add('E2', f, entry, 'parity of the mask condition in x and y', rets[0].lineno, flipx and flipy,
                 'the condition must be even in both coordinates: the kernel is symmetric under both axis flips')
-    rets = [n for n in f.own_nodes() if isinstance(n, ast.Return)]
-    ok = len(rets) == 1 and norm(rets[0].value).replace(' ', '') in ('%s.astype(float)' % norm(comp.targets[0]),)
-    rep.add('E1', f, entry, norm(rets[0]) if rets else 'return', f.node.lineno, ok, 'the boolean mask is returned as 0/1 floats')
-    # circle_kernel
+    rep.add('E1', f, entry, norm(rets[0])[:100], f.node.lineno, cast_ok, 'the boolean mask is returned as 0/1 floats')
+    # circle_kernel: the ellipse with half sizes int(radius_in_metres / cell size of the own axis)
     ck = m.funcs.get('circle_kernel')
-    t = [norm(s).replace(' ', '') for s in ck.own_nodes() if isinstance(s, ast.Assign)]
-    ok = 'r=_get_distance(str(radius))' in t and 'kernel_half_w=int(r/cellsize_x)' in t and 'kernel_half_h=int(r/cellsize_y)' in t \
-        and 'kernel=_ellipse_kernel(kernel_half_w,kernel_half_h)' in t
-    rep.add('E3', ck, entry, 'circle_kernel half sizes', ck.node.lineno, ok,
-            'half width = int(radius / cellsize_x), half height = int(radius / cellsize_y), passed as (half_w, half_h)')
+    rets = [n for n in ck.own_nodes() if isinstance(n, ast.Return)]
+    ok = False
+    shown = None
+    if len(rets) == 1 and rets[0].value is not None:
+        rv = inline(rets[0].value, straightline_env(ck.node.body, upto=rets[0]))
+        shown = norm(rv)[:140]
+        if isinstance(rv, ast.Call) and short(rv) == '_ellipse_kernel':
+            bound = {}
+            for p_, a_ in zip(f.params, rv.args):
+                bound[p_] = a_
+            for k_ in rv.keywords:
+                bound[k_.arg] = k_.value
+            rr = '_get_distance(str(%s))' % ck.params[2]
+            ok = set(bound) == {hw, hh} and norm(bound[hw]).replace(' ', '') == 'int(%s/%s)' % (rr, ck.params[0]) and \
+                norm(bound[hh]).replace(' ', '') == 'int(%s/%s)' % (rr, ck.params[1])
+    rep.add('E3', ck, entry, 'circle_kernel = %s' % shown, ck.node.lineno, ok,
+            'half width = int(radius / cellsize_x), half height = int(radius / cellsize_y), passed as (half_w, half_h), the radius '
+            'validated and converted to metres first')
+    # annulus: outer circle minus the inner circle zero-padded symmetrically to the outer shape
     ak = m.funcs.get('annulus_kernel')
-    t = [norm(s).replace(' ', '') for s in ak.own_nodes() if isinstance(s, ast.Assign)]
-    ok = 'kernel_outer=circle_kernel(cellsize_x,cellsize_y,outer_radius)' in t and \
-        'kernel_inner=circle_kernel(cellsize_x,cellsize_y,inner_radius)' in t and \
-        'pad_vals=np.array(kernel_outer.shape)-np.array(kernel_inner.shape)' in t and 'kernel=kernel_outer-pad_kernel' in t
+    circ = {}
+    for s_ in ak.node.body:
+        if isinstance(s_, ast.Assign) and isinstance(s_.targets[0], ast.Name) and isinstance(s_.value, ast.Call) and \
+                short(s_.value) == 'circle_kernel' and len(s_.value.args) == 3:
+            a_ = [norm(x) for x in s_.value.args]
+            if a_[:2] == ak.params[:2]:
+                circ[s_.targets[0].id] = a_[2]
+    outer = [n for n, r_ in circ.items() if r_ == ak.params[2]]
+    inner = [n for n, r_ in circ.items() if r_ == ak.params[3]]
+    rets = [n for n in ak.own_nodes() if isinstance(n, ast.Return)]
+    pads = [c_ for c_ in calls(ak.node) if short(c_) == 'pad']
+    ok = okp = False
+    padname = None
+    if len(outer) == 1 and len(inner) == 1 and len(rets) == 1 and len(pads) == 1:
+        keep = set(circ)
+        envl = straightline_env([s_ for s_ in ak.node.body if not (isinstance(s_, ast.Assign) and norm(s_.targets[0]) in keep)], upto=rets[0])
+        # the pad call itself is kept as a name so that the subtraction can be read
+        for s_ in ak.node.body:
+            if isinstance(s_, ast.Assign) and s_.value is pads[0] and isinstance(s_.targets[0], ast.Name):
+                padname = s_.targets[0].id
+        envl2 = {k_: v_ for k_, v_ in envl.items() if k_ != padname}
+        rv = inline(rets[0].value, envl2)
+        ok = isinstance(rv, ast.BinOp) and isinstance(rv.op, ast.Sub) and norm(rv.left) == outer[0] and \
+            (norm(rv.right) == padname or (isinstance(rv.right, ast.Call) and short(rv.right) == 'pad'))
+        # pad widths evaluated: ((d0, d0), (d1, d1)) with dk = (outer.shape[k] - inner.shape[k]) // 2
+        try:
+            sp = Spec(prog, {outer[0]: Arr('OUTER', 'param'), inner[0]: Arr('INNER', 'param')}, m)
+            sp.it.k.arrays.update({'OUTER': sp.it.env[outer[0]], 'INNER': sp.it.env[inner[0]]})
+            for s_ in ak.node.body:
+                if isinstance(s_, ast.Assign) and norm(s_.targets[0]) not in keep and s_.value is not pads[0] and \
+                        not any(x is pads[0] for x in ast.walk(s_)) and s_.lineno < pads[0].lineno:
+                    try:
+                        sp.it.stmt(s_)
+                    except AnalysisIncomplete:
+                        pass
+            pw = kw(pads[0], 'pad_width') or (pads[0].args[1] if len(pads[0].args) > 1 else None)
+            v = sp.it.ev(pw)
+            sh = lambda n_, k_: Rat.atom(App('shape', [n_, k_]))   # noqa
+            d = [sp.it.app('floordiv', [sh('OUTER', k_) - sh('INNER', k_), Rat.const(2)]) if hasattr(sp.it, 'app') else None for k_ in (0, 1)]
+            d = [Rat.atom(App('floordiv', [sh('OUTER', k_) - sh('INNER', k_), Rat.const(2)])) for k_ in (0, 1)]
+            got = [[sp.it.as_scalar(y) for y in x.items] for x in v.items] if isinstance(v, TupleV) and all(isinstance(x, TupleV) for x in v.items) else None
+            cv = kw(pads[0], 'constant_values')
+            okp = got == [[d[0], d[0]], [d[1], d[1]]] and norm(pads[0].args[0]) == inner[0] and (cv is None or const(cv) == 0) and \
+                const(kw(pads[0], 'mode'), 'constant') == 'constant'
+        except (AnalysisIncomplete, AttributeError) as e:
+            okp = None
     rep.add('E4', ak, entry, 'annulus = outer circle - padded inner circle', ak.node.lineno, ok,
-            'the annulus is the outer circle minus the inner circle padded to the outer shape')
-    pads = [c for c in calls(ak.node) if short(c) == 'pad']
-    okp = False
-    if len(pads) == 1:
-        pw = kw(pads[0], 'pad_width') or (pads[0].args[1] if len(pads[0].args) > 1 else None)
-        if pw is not None:
-            tt = norm(pw).replace(' ', '')
-            okp = tt == '((pad_vals[0]//2,pad_vals[0]//2),(pad_vals[1]//2,pad_vals[1]//2))'
-        cv = kw(pads[0], 'constant_values')
-        okp = okp and norm(pads[0].args[0]) == 'kernel_inner' and (cv is None or const(cv) == 0) and \
-            const(kw(pads[0], 'mode'), 'constant') == 'constant'
+            'the annulus is the outer circle minus the inner circle padded to the outer shape (a new array: the circles are not '
+            'modified in place)')
     rep.add('E4', ak, entry, norm(pads[0])[:140] if pads else 'np.pad call', ak.node.lineno, okp,
             'the inner circle must be centred: equal zero pads before and after on each axis (rows with the row '
             'difference, columns with the column difference)')
